@@ -384,6 +384,18 @@ def model_bad_superset(rng, idx: int, module: str) -> SdkModel:
 # =====================================================================================
 
 
+def with_ctor_defaults(mm: mmg.MetaModel, cls: mmg.Class, defaults: Dict[str, str]) -> None:
+    """Give the constructor arguments of REQUIRED properties non-None defaults (source text,
+    e.g. ``{"level": "3"}``): the derived constructor, with the defaulted required arguments
+    moved behind the plain ones (and before the Optional ``= None`` ones)."""
+    ctor = mmg.derive_ctor(mm, cls)
+    assert ctor is not None
+    plain = [a for a in ctor.args if a.default is None and a.name not in defaults]
+    dflt = [mmg.CtorArg(a.name, a.type, defaults[a.name]) for a in ctor.args if a.default is None and a.name in defaults]
+    opt = [a for a in ctor.args if a.default is not None]
+    cls.ctor_override = mmg.Ctor(args=plain + dflt + opt, body=ctor.body)
+
+
 def model_shapes(rng, idx: int, module: str) -> SdkModel:
     """Hand-shaped class model: an abstract root with concrete leaves (with_model_type),
     a stand-alone class with every primitive kind (required, optional, lists), nested
@@ -405,9 +417,18 @@ def model_shapes(rng, idx: int, module: str) -> SdkModel:
                        properties=[P("text", T("str")), P("more", O(U("Short_text")))])
     leaf_b = mmg.Class("Leaf_blob", bases=["Abstract_item"],
                        properties=[P("blob", T("bytearray")), P("opt_blob", O(T("bytearray")))])
+    # required properties whose constructor arguments have non-None defaults
+    dflts = mmg.Class("Defaults_thing",
+                      properties=[P("level", T("int")), P("label", T("str")), P("flag", T("bool")),
+                                  P("ratio", T("float")), P("plain", T("int")), P("remark", O(T("str")))])
+    # single (non-list) properties typed with LEAF concrete classes below a with_model_type
+    # ancestor (Leaf_blob, Deep_leaf_URL), with a class that has descendants (Leaf_text) and
+    # with the abstract root, at nesting depth >= 2 (Holder.item -> Leaf_container -> ...)
     mid = mmg.Class("Leaf_container", bases=["Abstract_item"],
                     properties=[P("items", O(L(U("Abstract_item")))), P("first", O(U("Abstract_item"))),
-                                P("texts", L(U("Leaf_text")))])
+                                P("texts", L(U("Leaf_text"))),
+                                P("main_blob", O(U("Leaf_blob"))), P("main_deep", O(U("Deep_leaf_URL"))),
+                                P("thing", O(U("Defaults_thing"))), P("things", O(L(U("Defaults_thing"))))])
     deep = mmg.Class("Deep_leaf_URL", bases=["Leaf_text"], properties=[P("URL_count", T("int"))])
     or_default: Dict[Tuple[str, str], Any] = {}
     extra: Dict[str, str] = {}
@@ -442,10 +463,26 @@ def model_shapes(rng, idx: int, module: str) -> SdkModel:
     holder = mmg.Class("Holder", with_model_type=bool(idx % 2),
                        properties=[P("prims", U("All_primitives")), P("item", U("Abstract_item")),
                                    P("leaf", O(U("Leaf_text"))), P("many", L(U("All_primitives"))),
-                                   P("opt_many", O(L(U("Leaf_container"))))])
-    mm.classes = [item, leaf_a, leaf_b, mid, deep, prims, holder]
+                                   P("opt_many", O(L(U("Leaf_container")))),
+                                   P("blob_leaf", U("Leaf_blob")), P("deep_leaf", U("Deep_leaf_URL")),
+                                   P("nested_container", O(U("Leaf_container"))), P("dflt", U("Defaults_thing"))])
+    mm.classes = [item, leaf_a, leaf_b, mid, deep, prims, dflts, holder]
+    with_ctor_defaults(mm, dflts, {"level": "3", "label": '"x"', "flag": "True"})
     # the real Leaf_text has a concrete descendant: it needs with_model_type (inherited)
     return SdkModel(f"shapes-{idx}", mm, module, or_default=or_default, extra_snippets=extra)
+
+
+def model_float_default(rng, idx: int, module: str) -> SdkModel:
+    """A required float property whose constructor argument has a default (kept apart from
+    the shapes model: on a tree without the repair the generated types module has a syntax
+    error, reported under the stable key ``float-ctor-default-breaks-import``)."""
+    mm = _mm()
+    T, P = mmg.TPrim, mmg.Property
+    c = mmg.Class("Ratio_thing", properties=[P("ratio", T("float")), P("count", T("int")),
+                                             P("remark", mmg.TOpt(T("str")))])
+    mm.classes = [c]
+    with_ctor_defaults(mm, c, {"ratio": "1.5"})
+    return SdkModel(f"float-default-{idx}", mm, module)
 
 
 def model_missing_model_type(rng, idx: int, module: str) -> SdkModel:
@@ -485,7 +522,7 @@ NON_XML_POOL = ["\x00", "\x0b", "\ud800", "￾", "\x1f"]
 
 class InstanceGen:
     def __init__(self, rng, lite: Dict[str, Any], xml_safe: bool = False, with_cr: bool = True,
-                 share: float = 0.15) -> None:
+                 share: float = 0.15, empty_bytes: bool = True) -> None:
         self.rng = rng
         self.lite = lite
         self.next_id = 1
@@ -493,6 +530,8 @@ class InstanceGen:
         self.xml_safe = xml_safe
         self.with_cr = with_cr
         self.share = share
+        self.empty_bytes = empty_bytes
+        self.ranks = instantiable_ranks(lite)
         self.nodes = 0
 
     def text(self) -> str:
@@ -519,7 +558,7 @@ class InstanceGen:
         if p == "str":
             return e_str(self.text())
         if p == "bytearray":
-            n = rng.choice([0, 1, 2, 3, 4, 7])
+            n = rng.choice([0, 1, 2, 3, 4, 7] if self.empty_bytes else [1, 2, 3, 4, 7])
             return e_bytes(bytes(rng.randrange(256) for _ in range(n)))
         raise ValueError(p)
 
@@ -533,7 +572,7 @@ class InstanceGen:
         if k == "cls":
             return self.obj(t["n"], depth)
         if k == "list":
-            n = self.rng.choice([0, 0, 1, 2, 3]) if depth > 0 else self.rng.choice([0, 0, 1])
+            n = self.rng.choice([0, 0, 1, 2, 3]) if depth > 0 else (self.rng.choice([0, 0, 1]) if depth == 0 else 0)
             return e_list([self.value(t["items"], depth - 1) for _ in range(n)])
         raise ValueError(k)
 
@@ -545,6 +584,10 @@ class InstanceGen:
             cands = [o for name in options for o in self.pool.get(name, [])]
             if cands:
                 return {"r": self.rng.choice(cands)["o"]}
+        if depth <= 0:
+            # out of budget: the class that bottoms out fastest (termination)
+            best = min(self.ranks.get(o, 10**6) for o in options)
+            options = [o for o in options if self.ranks.get(o, 10**6) == best]
         name = self.rng.choice(options)
         return self.new_obj(name, depth)
 
@@ -566,27 +609,39 @@ class InstanceGen:
         return o
 
 
-def instantiable(lite: Dict[str, Any]) -> List[str]:
-    """Concrete classes for which a finite instance exists (required class-typed properties
-    bottom out)."""
-    ok: set = set()
+def instantiable_ranks(lite: Dict[str, Any]) -> Dict[str, int]:
+    """Concrete classes for which a finite instance exists, with the round of the fixpoint
+    iteration in which that became known (0 = no required class-typed property)."""
+    rank: Dict[str, int] = {}
+    rnd = 0
     changed = True
     while changed:
         changed = False
+        new: List[str] = []
         for c in lite["classes"]:
-            if c["abstract"] or c["name"] in ok:
+            if c["abstract"] or c["name"] in rank:
                 continue
             good = True
             for p in c["props"]:
                 if p["optional"]:
                     continue
                 t = p["type"]
-                if t["k"] == "cls" and not any(o in ok for o in concrete_options(lite, t["n"])):
+                if t["k"] == "cls" and not any(o in rank for o in concrete_options(lite, t["n"])):
                     good = False
             if good:
-                ok.add(c["name"])
-                changed = True
-    return [c["name"] for c in lite["classes"] if c["name"] in ok]
+                new.append(c["name"])
+        for n in new:
+            rank[n] = rnd
+            changed = True
+        rnd += 1
+    return rank
+
+
+def instantiable(lite: Dict[str, Any]) -> List[str]:
+    """Concrete classes for which a finite instance exists (required class-typed properties
+    bottom out)."""
+    rank = instantiable_ranks(lite)
+    return [c["name"] for c in lite["classes"] if c["name"] in rank]
 
 
 def restrict_to(lite: Dict[str, Any], ok: Sequence[str]) -> Dict[str, Any]:
@@ -1007,4 +1062,98 @@ def inst_strings(inst: Any) -> List[str]:
             if key in inst:
                 for x in inst[key]:
                     out += inst_strings(x)
+    return out
+
+
+# =====================================================================================
+# "Missing key" documents: every property of every object at every depth
+# =====================================================================================
+
+
+def json_drops(lite: Dict[str, Any], tree: Dict[str, Any], doc: Any) -> List[Tuple[Any, bool, str]]:
+    """Documents obtained from ``doc`` (the typed jsonable of the instance ``tree``) by
+    removing exactly one member of one object: (document, property is required, "Cls.prop")."""
+    out: List[Tuple[Any, bool, str]] = []
+
+    def walk(t: Dict[str, Any], d: Any, path: Tuple[Any, ...]) -> None:
+        if not (isinstance(d, dict) and "O" in d):
+            return
+        c = find_cls(lite, t["c"])
+        by_json = {p["json"]: (i, p) for i, p in enumerate(c["props"])}
+        for mi, (key, val) in enumerate(d["O"]):
+            k = "".join(chr(x) for x in key)
+            if k not in by_json:
+                continue
+            i, p = by_json[k]
+            members = [m for j, m in enumerate(d["O"]) if j != mi]
+            out.append((j_set(doc, path, {"O": members}), not p["optional"], f"{c['name']}.{p['name']}"))
+            f = t["f"][i]
+            if isinstance(f, dict) and "o" in f:
+                walk(f, val, path + (mi,))
+            elif isinstance(f, dict) and "L" in f and isinstance(val, dict) and "A" in val:
+                for li, (x, xv) in enumerate(zip(f["L"], val["A"])):
+                    if isinstance(x, dict) and "o" in x:
+                        walk(x, xv, path + (mi, li))
+
+    walk(tree, doc, ())
+    return out
+
+
+def xml_drops(lite: Dict[str, Any], tree: Dict[str, Any], text: str) -> List[Tuple[str, bool, str]]:
+    """XML documents obtained from the SDK's own output by removing exactly one property
+    element at any depth: (text, property is required, "Cls.prop"). Returns [] when the
+    document does not have the expected shape (the round-trip oracle reports that)."""
+    import copy as _copy
+    import xml.etree.ElementTree as ET
+
+    def local(tag: str) -> str:
+        return tag.rsplit("}", 1)[-1]
+
+    try:
+        root = ET.fromstring(text)
+    except ET.ParseError:
+        return []
+    ns = root.tag[1:].split("}")[0] if root.tag.startswith("{") else ""
+    if ns:
+        ET.register_namespace("", ns)
+    found: List[Tuple[Tuple[int, ...], bool, str]] = []
+
+    def walk(parent: Any, t: Dict[str, Any], path: Tuple[int, ...]) -> None:
+        c = find_cls(lite, t["c"])
+        by_xml = {p["xml"]: (i, p) for i, p in enumerate(c["props"])}
+        for ci, child in enumerate(list(parent)):
+            name = local(child.tag)
+            if name not in by_xml:
+                raise ValueError("unexpected shape")
+            i, p = by_xml[name]
+            found.append((path + (ci,), not p["optional"], f"{c['name']}.{p['name']}"))
+            f = t["f"][i]
+            if isinstance(f, dict) and "o" in f:
+                runtime = find_cls(lite, f["c"])
+                static = find_cls(lite, p["type"]["n"])
+                if static["concrete_descendants"]:
+                    if len(child) != 1 or local(child[0].tag) != runtime["xml"]:
+                        raise ValueError("unexpected shape")
+                    walk(child[0], f, path + (ci, 0))
+                else:
+                    walk(child, f, path + (ci,))
+            elif isinstance(f, dict) and "L" in f:
+                for li, (x, item) in enumerate(zip(f["L"], list(child))):
+                    if isinstance(x, dict) and "o" in x:
+                        if local(item.tag) != find_cls(lite, x["c"])["xml"]:
+                            raise ValueError("unexpected shape")
+                        walk(item, x, path + (ci, li))
+
+    try:
+        walk(root, tree, ())
+    except (ValueError, KeyError, IndexError):
+        return []
+    out = []
+    for path, required, label in found:
+        r2 = _copy.deepcopy(root)
+        parent = r2
+        for i in path[:-1]:
+            parent = parent[i]
+        parent.remove(parent[path[-1]])
+        out.append((ET.tostring(r2, encoding="unicode"), required, label))
     return out
